@@ -70,9 +70,9 @@ impl Flavour {
     }
     pub fn binary(self) -> String {
         match self {
-            Flavour::Rel => "/verif/harness/target/release/nlv".to_string(),
-            Flavour::Dbg => "/verif/harness/target/debug/nlv".to_string(),
-            Flavour::Asan => "/verif/harness/target-asan/x86_64-unknown-linux-gnu/release/nlv".to_string(),
+            Flavour::Rel => format!("{}/harness/target/release/nlv", root()),
+            Flavour::Dbg => format!("{}/harness/target/debug/nlv", root()),
+            Flavour::Asan => format!("{}/harness/target-asan/x86_64-unknown-linux-gnu/release/nlv", root()),
             Flavour::Miri => String::new(),
         }
     }
@@ -378,7 +378,7 @@ pub fn run_miri(prop: &str, ctx: &Ctx, from: u64, to: u64, shards: u64, merged: 
             break;
         }
         let child = Command::new("cargo")
-            .current_dir("/verif/harness")
+            .current_dir(format!("{}/harness", root()))
             .args(["+nightly", "miri", "run", "--offline", "-q", "--"])
             .args(["inproc", prop, ctx.tier.name(), &ctx.seed.to_string(), &a.to_string(), &b.to_string()])
             .env("NLV_FLAVOUR", "miri")
@@ -436,7 +436,8 @@ pub fn run_miri(prop: &str, ctx: &Ctx, from: u64, to: u64, shards: u64, merged: 
 
 /// The in-process thread context of a check under ThreadSanitizer (binary built by ./check with -Zbuild-std)
 pub fn run_tsan(prop: &str, ctx: &Ctx, merged: &mut Stats) {
-    let bin = "/verif/harness/target-tsan/x86_64-unknown-linux-gnu/release/nlv";
+    let bin_s = format!("{}/harness/target-tsan/x86_64-unknown-linux-gnu/release/nlv", root());
+    let bin = bin_s.as_str();
     if !std::path::Path::new(bin).exists() {
         merged.count("tsan:binary-missing");
         return;
@@ -478,8 +479,13 @@ pub fn print_substats(stats: &Stats, prop: &str) {
     println!("substats {}", stats.to_json(&f));
 }
 
+/// where the framework lives: /verif, or the snapshot a background run was started from
+pub fn root() -> String {
+    std::env::var("NLV_ROOT").unwrap_or_else(|_| "/verif".to_string())
+}
+
 pub fn scratch_dir() -> String {
-    let d = "/verif/harness/target/scratch".to_string();
+    let d = format!("{}/harness/target/scratch", root());
     let _ = std::fs::create_dir_all(&d);
     d
 }
@@ -868,7 +874,7 @@ pub struct Known {
 
 pub fn load_known() -> Vec<Known> {
     let mut out = vec![];
-    if let Ok(s) = std::fs::read_to_string("/verif/known_findings.json") {
+    if let Ok(s) = std::fs::read_to_string(format!("{}/known_findings.json", root())) {
         if let Ok(v) = serde_json::from_str::<Value>(&s) {
             if let Some(a) = v["findings"].as_array() {
                 for f in a {
@@ -914,13 +920,13 @@ pub fn conclude(check: &dyn Check, ctx: &Ctx, mut stats: Stats, wall_s: f64) -> 
         }
     }
 
-    let _ = std::fs::create_dir_all("/verif/replays");
-    let _ = std::fs::create_dir_all("/verif/evidence");
+    let _ = std::fs::create_dir_all(format!("{}/replays", root()));
+    let _ = std::fs::create_dir_all(format!("{}/evidence", root()));
     let mut viol_json = vec![];
     let mut lines = vec![];
     for v in &new_violations {
         let h = crate::rng::hash_str(&format!("{}|{}", v.sig, v.input));
-        let path = format!("/verif/replays/{}-{:016x}.json", id, h);
+        let path = format!("{}/replays/{}-{:016x}.json", root(), id, h);
         let r = json!({
             "property": id, "tier": ctx.tier.name(), "seed": ctx.seed, "idx": v.idx,
             "signature": v.sig, "detail": v.detail, "input": v.input,
@@ -973,7 +979,7 @@ pub fn conclude(check: &dyn Check, ctx: &Ctx, mut stats: Stats, wall_s: f64) -> 
         "violations": new_violations.len(),
     });
     let _ = std::fs::write(
-        format!("/verif/evidence/{}.json", id),
+        format!("{}/evidence/{}.json", root(), id),
         serde_json::to_string_pretty(&ev).unwrap() + "\n",
     );
 
